@@ -79,6 +79,24 @@ fn drive<F: Ext>(ev: &mut Ev, args: &Args, lay: Lay)
 where
     F::Bits: BitsIo,
 {
+    if lay.n == 8 && args.get_u64("exhaustive", 0) == 2 {
+        // every value of an 8-bit layout under the full specification grid
+        const PRECS: [Option<usize>; 10] = [None, Some(0), Some(1), Some(2), Some(3), Some(5), Some(8), Some(9), Some(20), Some(130)];
+        const WS: [Option<usize>; 6] = [None, Some(0), Some(1), Some(7), Some(40), Some(150)];
+        for a in 0..256u128 {
+            rt_ev::<F>(ev, lay, a);
+            for kind in 0..6u8 {
+                for fs in 0..FLAGSETS.len() as u8 {
+                    for w in WS.iter() {
+                        for p in PRECS.iter() {
+                            fmt_ev::<F>(ev, lay, a, kind, fs, *w, *p);
+                        }
+                    }
+                }
+            }
+        }
+        return;
+    }
     let mut rng = args.rng_for(lay, 9);
     let exhaustive = lay.n == 8 && args.get_u64("exhaustive", 0) == 1;
     let count = if exhaustive { 256 } else { args.n };
